@@ -7,6 +7,7 @@ working tree (rustc's proc_macro bridge, not proc-macro2's fallback), are compil
 values are compared with the designer's expectation.  A module that rustc rejects although the designer built it
 from documented features is a failure too (generated code does not compile).
 """
+import gen
 import os, re, random, subprocess, shutil, json, hashlib
 
 VERIF = os.path.dirname(os.path.dirname(os.path.abspath(__file__)))
@@ -883,6 +884,89 @@ def design_flat7(r, name):
     return design_flat_perm(r, name) if t < 0.1 else design_flat_parent(r, name) if t < 0.45 else design_pparent(r, name) if t < 0.65 else design_flat(r, name)
 
 
+def design_generic(r, name):
+    """C11 (and C04's generic error types): generic deriving types and counterparts — lifetimes, type parameters,
+    counterpart-only lifetimes (with and without a type parameter next to them), both turbofish spellings, default and
+    dedicated where-clauses, by-reference conversions that need `'o2o`. rustc must accept the impls and the conversions
+    must deliver the values"""
+    m = Module(name, "generic")
+    has_lt = r.random() < 0.5          # S<'a> holds a &'a str
+    has_t = r.random() < 0.6           # S<T> holds a T
+    cp_only_lt = r.random() < 0.45     # the counterpart has a lifetime of its own ('b), carried by a PhantomData member
+    two = r.random() < 0.35            # a second counterpart B with the same members
+    fallible = r.random() < 0.3
+    pre = "try_" if fallible else ""
+    sgens = [x for x, on in (("'a", has_lt), ("T", has_t)) if on]
+    S = "S" + ("<" + ", ".join(sgens) + ">" if sgens else "")
+
+    def cpath(base, with_b):
+        args = (["'b"] if with_b else []) + sgens
+        if not args:
+            return base
+        return base + r.choice(["<", "::<"]) + ", ".join(args) + ">"
+    spelled = {}
+
+    def cpath_once(base, with_b):
+        # one spelling per counterpart: a dedication has to repeat the instruction's spelling
+        if base not in spelled:
+            spelled[base] = cpath(base, with_b)
+        return spelled[base]
+    members = [("n", "i64")] + ([("s", "&'a str")] if has_lt else []) + ([("t", "T")] if has_t else [])
+    r.shuffle(members)
+    cps = [("A", cp_only_lt)] + ([("B", False)] if two else [])
+    for base, with_b in cps:
+        decl_args = (["'b"] if with_b else []) + sgens
+        decl = base + ("<" + ", ".join(decl_args) + ">" if decl_args else "")
+        fields = ", ".join(f"pub {nm}: {ty}" for nm, ty in members) + (", pub ph: std::marker::PhantomData<&'b ()>" if with_b else "")
+        m.types.append(f"pub struct {decl} {{ {fields} }}")
+    if fallible:
+        m.types.append("#[derive(Debug)] pub struct MyErr<X>(pub X);")
+    err = (", MyErr<T>" if has_t else ", MyErr<i64>") if fallible else ""
+    attrs = []
+    for base, with_b in cps:
+        c = cpath_once(base, with_b)
+        if with_b:
+            # the counterpart's own lifetime is only named in the instruction: the impl has to declare it
+            nm = (lambda x: gen.try_name(x)) if fallible else (lambda x: x)
+            attrs.append(" ".join(f"#[{nm(x)}({c}{err})]" for x in ("from_owned", "from_ref", "owned_into", "ref_into")))
+            attrs.append(f"#[ghosts({c}| ph: {{ std::marker::PhantomData }})]")
+        else:
+            attrs.append(f"#[{pre}map({c}{err})]" + (f" #[{pre}into_existing({c}{err})]" if r.random() < 0.4 else ""))
+    if has_t:
+        if two and r.random() < 0.5:
+            # a default clause and one dedicated to B, in either order; both give what the by-reference impls need
+            wc = ["#[where_clause(T: Clone)]", f"#[where_clause({cpath_once('B', False)}| T: Clone + Sized)]"]
+            r.shuffle(wc)
+            attrs += wc
+        else:
+            attrs.append("#[where_clause(T: Clone)]")
+    r.shuffle(attrs)
+    mf = ", ".join((("#[map_ref(~.clone())] " if ty == "T" else "") + f"pub {nm}: {ty}") for nm, ty in members)
+    item = " ".join(attrs) + f" pub struct {S} {{ {mf} }}"
+    m.derive_src = item
+    m.types.append("#[derive(o2o)] " + item)
+    vals = {"n": "7", "s": '"hi"', "t": "41i64"}
+    show = {"n": "7", "s": '"hi"', "t": "41"}
+    tup = lambda v: "(" + ", ".join(f"{v}.{nm}" for nm, _ in members) + ",)"
+    exp = "(" + ", ".join(show[nm] for nm, _ in members) + (",)" if len(members) == 1 else ")")
+    s_lit = "S { " + ", ".join(f"{nm}: {vals[nm]}" for nm, _ in members) + " }"
+    un = ".unwrap()" if fallible else ""
+    for base, with_b in cps:
+        a_lit = base + " { " + ", ".join(f"{nm}: {vals[nm]}" for nm, _ in members) + (", ph: std::marker::PhantomData" if with_b else "") + " }"
+        conv_from = (lambda e: f"S::try_from({e}).unwrap()") if fallible else (lambda e: f"S::from({e})")
+        holes = (["'_"] if with_b else []) + [("'_" if g.startswith("'") else "_") for g in sgens]
+        ann = base + ("<" + ", ".join(holes) + ">" if holes else "")
+        if fallible:
+            conv_into = lambda e: "{ let r: Result<" + ann + ", _> = " + e + ".try_into(); r.unwrap() }"
+        else:
+            conv_into = lambda e: "{ let r: " + ann + " = " + e + ".into(); r }"
+        m.tests.append((f"from_owned_{base}", f'let a = {a_lit}; let r = {conv_from("a")}; println!("{name} from_owned_{base} {{:?}}", {tup("r")});', exp))
+        m.tests.append((f"from_ref_{base}", f'let a = {a_lit}; let r = {conv_from("&a")}; println!("{name} from_ref_{base} {{:?}}", {tup("r")});', exp))
+        m.tests.append((f"into_owned_{base}", f'let s = {s_lit}; let r = {conv_into("s")}; println!("{name} into_owned_{base} {{:?}}", {tup("r")});', exp))
+        m.tests.append((f"into_ref_{base}", f'let s = {s_lit}; let r = {conv_into("(&s)")}; println!("{name} into_ref_{base} {{:?}}", {tup("r")});', exp))
+    return m
+
+
 def design_subst(r, name):
     """the mix used for C10: programs whose inline expressions use `~` / `@` (flat structs with actions, enums whose
     payload expressions designate another position)"""
@@ -896,7 +980,7 @@ def design_wf(r, name):
     return design_tree_hints(r, name) if t < 0.4 else design_flat_parent(r, name) if t < 0.75 else design_two_parents(r, name)
 
 
-FAMILIES = {"pparent": design_pparent, "wf": design_wf, "subst": design_subst, "flat7": design_flat7, "flat": design_flat_any, "tree": design_tree_any, "hints": design_tree_hints, "enum": design_enum, "prim": design_prim}
+FAMILIES = {"generic": design_generic, "pparent": design_pparent, "wf": design_wf, "subst": design_subst, "flat7": design_flat7, "flat": design_flat_any, "tree": design_tree_any, "hints": design_tree_hints, "enum": design_enum, "prim": design_prim}
 
 
 # ------------------------------------------------------------------------------------------------
